@@ -33,6 +33,18 @@ func (e FailEnc) Unmarshal(buf []byte, msg drpc.Message) error {
 	return fmt.Errorf("%s", e.Msg)
 }
 
+// BadMarshalEnc cannot encode anything (a request the application's encoding rejects, e.g. a proto3 string
+// field holding invalid UTF-8).
+type BadMarshalEnc struct{}
+
+func (BadMarshalEnc) Marshal(msg drpc.Message) ([]byte, error) {
+	return nil, fmt.Errorf("harness: cannot encode")
+}
+func (BadMarshalEnc) Unmarshal(buf []byte, msg drpc.Message) error {
+	*(msg.(*[]byte)) = append([]byte(nil), buf...)
+	return nil
+}
+
 const payloadOverhead = 17
 
 // MakePayload builds a self-describing message body: tag(4) dir(1) seq(4) len(4) body crc(4).
